@@ -48,6 +48,15 @@ func (p *Parser) Error(msg string) {
 	p.errHandlerFunc(errors.NewError(msg, p.currentToken.Position))
 }
 
+// reportError passes a semantic error to the error handler, if there is one
+func (p *Parser) reportError(e *errors.Error) {
+	if p.errHandlerFunc == nil {
+		return
+	}
+
+	p.errHandlerFunc(e)
+}
+
 // Parse the php7 Parser entrypoint
 func (p *Parser) Parse() int {
 	p.rootNode = nil
